@@ -18,7 +18,6 @@ package orefafs
 
 import (
 	"io/fs"
-	"sync"
 
 	"github.com/avfs/avfs"
 )
@@ -29,7 +28,7 @@ type OrefaFS struct {
 	err             avfs.Errors  // err regroups errors depending on the OS emulated.
 	name            string       // name is the name of the file system.
 	lastId          *uint64      // lastId is the last unique id used to identify files uniquely.
-	mu              sync.RWMutex // mu is the RWMutex used to access nodes.
+	mu              verifRWMutex // mu is the RWMutex used to access nodes.
 	dirMode         fs.FileMode  // dirMode is the default fs.FileMode for a directory.
 	fileMode        fs.FileMode  // fileMode is de default fs.FileMode for a file.
 	avfs.CurDirFn                // CurDirFn provides current directory functions to a file system.
@@ -49,7 +48,7 @@ type OrefaFile struct {
 	dirNames   []string      // dirNames stores the names of the file returned by Readdirnames function.
 	at         int64         // at is current position in the file used by Read and Write functions.
 	dirIndex   int           // dirIndex is the position of the current index for dirEntries ou dirNames slices.
-	mu         sync.RWMutex  // mu is the RWMutex used to access content of OrefaFile.
+	mu         verifRWMutex  // mu is the RWMutex used to access content of OrefaFile.
 	openMode   avfs.OpenMode // OpenMode defines constants used by OpenFile and CheckPermission functions.
 }
 
@@ -76,7 +75,7 @@ type node struct {
 	mtime    int64
 	gid      int
 	nlink    int
-	mu       sync.RWMutex
+	mu       verifRWMutex
 	mode     fs.FileMode
 }
 
